@@ -924,10 +924,10 @@ func init() {
 		Rule:   "integer-grid inputs (extent <= 1e5 around offsets 0, +-1e3, +-1e6, +-1e9): simple rings (star-shaped by exact angle order; rectilinear staircases with flat tops and repeated vertices) in both directions from every start vertex -> IsRingCounterClockwise == (exact area > 0), SignedArea == exact (clockwise positive); polygons with 0..3 holes strictly inside and multipolygons of disjoint members -> area centroid vs exact rational centroid within ((4n+16)u(sum|a_i c_i| + 3|C|sum|a_i|))/(3|A2|) through PolygonsCentroid, MultiPolygonCentroid and Centroid; collinear (zero-area) polygons -> length-weighted centroid; polylines and point sets vs 400-bit / rational means. distinct_nontrivial = distinct (kind, size, direction/holes, layout) combinations",
 		Assume: []string{"math/big exact; every difference and product the code forms on these grids is exact or rounded once, which is what the bound assumes"},
 		Classes: []fw.Class{
-			{Name: "rings", Quick: 80000, Thorough: 1500000, Run: c14Rings},
-			{Name: "polygons", Quick: 60000, Thorough: 1000000, Run: c14Polygons},
-			{Name: "zero-area", Quick: 15000, Thorough: 200000, Run: c14ZeroArea},
-			{Name: "lines-points", Quick: 40000, Thorough: 800000, Run: c14LinesPoints},
+			{Name: "rings", Quick: 80000, Thorough: 6000000, Run: c14Rings},
+			{Name: "polygons", Quick: 60000, Thorough: 4000000, Run: c14Polygons},
+			{Name: "zero-area", Quick: 15000, Thorough: 800000, Run: c14ZeroArea},
+			{Name: "lines-points", Quick: 40000, Thorough: 3200000, Run: c14LinesPoints},
 		},
 		Require: []string{"ring_ccw", "ring_cw", "ring_tie_at_top", "ring_star", "ring_staircase", "with_holes", "polygons_1", "polygons_3", "zero_area_fallback", "line_sets", "point_sets"},
 	})
